@@ -5,7 +5,11 @@ B: a fake `$MODULESHOME/libexec/lmod` (shell script in a temp dir) prints, for `
    replaced by a generated caller environment; a real `Job.run()` of a shell task that prints its own
    environment (`/bin/cat /proc/self/environ`, `/usr/bin/env -0`) is executed through lmod.Environment
    and through native.Environment.  Observed: the argv handed to the process launcher (recorded by a
-   pass-through wrapper of environments.base.execute) and the environment the real child process saw.
+   pass-through wrapper of environments.base.execute) and the environment the real child process saw
+   ("real" domains).  Process creation is the dominant cost, so the large enumerations run in "recorded"
+   mode: the lmod executable is simulated in-process (a stand-in for subprocess.Popen inside
+   pydra.environments.lmod that implements the same protocol) and the child's environment is taken from
+   the `env=` argument handed to the launcher (absent/None = the caller's os.environ, per subprocess).
 """
 
 from __future__ import annotations
@@ -77,6 +81,26 @@ def cases_sequences(ctx):
                     yield {"caller": list(caller), "modules": mods, "shape": "env"}
 
 
+def cases_real(ctx):
+    """the cases run with real processes (fake lmod script + real child)"""
+    for caller in QUICK_ENVS:
+        for name in ("FOO", "NEWVAR") if ctx.thorough else ("FOO",):
+            for vk in VALUES:
+                for style in STYLES if ctx.thorough else ("dq;",):
+                    yield {"caller": list(caller), "modules": [[[name, vk, style]]], "shape": "cat"}
+        for style in STYLES:
+            yield {"caller": list(caller), "modules": [[["NEWVAR", "simple", style]]], "shape": "env"}
+        yield {"caller": list(caller), "modules": [[["PATH", "prepend", "dq;"]]], "shape": "env"}
+    if ctx.thorough:
+        yield from (c for c in cases_sequences(ctx) if tuple(c["caller"]) == QUICK_ENVS[4])
+    else:
+        for a, b in ((("FOO", "simple"), ("FOO", "spaces")), (("PATH", "prepend"), ("PATH", "prepend")), (("NEWVAR", "simple"), ("FOO", "simple"))):
+            for split in (False, True):
+                asg = [[a[0], a[1], "dq;"], [b[0], b[1], "dq;"]]
+                yield {"caller": list(QUICK_ENVS[4]), "modules": [[asg[0]], [asg[1]]] if split else [asg], "shape": "env"}
+    yield from cases_unset(ctx)
+
+
 def cases_unset(ctx):
     for caller in (QUICK_ENVS[1], QUICK_ENVS[4]):
         for name in ("FOO", "NEWVAR"):
@@ -104,14 +128,16 @@ class Harness:
             '[ "$1" = python ] || { echo "_mlstatus = False"; exit 0; }\n'
             '[ "$2" = load ] || { echo "_mlstatus = False"; exit 0; }\n'
             "shift; shift\n"
-            f"for m in \"$@\"; do /bin/cat '{self.mods}'/\"$m\".py || {{ echo '_mlstatus = False'; exit 0; }}; done\n"
+            f"for m in \"$@\"; do [ -r '{self.mods}'/\"$m\".py ] || {{ echo '_mlstatus = False'; exit 0; }}\n"
+            f"  while IFS= read -r line; do printf '%s\\n' \"$line\"; done < '{self.mods}'/\"$m\".py\n"
+            "done\n"
             "echo '_mlstatus = True'\n"
         )
         script.chmod(0o755)
         self.cache_root = self.tmp / "cache"
         self.cache_root.mkdir()
-        self.saved_env = None
         self._tasks = {}
+        self._native = {}
 
     def close(self):
         shutil.rmtree(self.tmp, ignore_errors=True)
@@ -125,8 +151,41 @@ class Harness:
             self._tasks[shape] = Task(a=argv[1])
         return self._tasks[shape]
 
-    def run_case(self, case):
+    def _popen_standin(self):
+        """in-process stand-in for the lmod executable (recorded mode): same protocol as the script"""
+        import subprocess as real_sp
+
+        h = self
+
+        class P:
+            def __init__(self, argv, **kw):
+                exe = str(Path(os.environ.get("MODULESHOME", "/nonexistent")) / "libexec" / "lmod")
+                if argv[0] != exe or argv[0] != str(h.home / "libexec" / "lmod"):
+                    raise FileNotFoundError(2, "No such file or directory", argv[0])
+                with open(h.calls_log, "a") as f:
+                    f.write(" ".join(argv[1:]) + "\n")
+                out = ""
+                ok = list(argv[1:3]) == ["python", "load"]
+                for m in argv[3:]:
+                    f = h.mods / f"{m}.py"
+                    if not f.exists():
+                        ok = False
+                        break
+                    out += f.read_text()
+                self.out = (out + "_mlstatus = True\n") if ok else "_mlstatus = False\n"
+
+            def communicate(self):
+                return self.out.encode(), b""
+
+        import types
+
+        ns = types.SimpleNamespace(**{k: getattr(real_sp, k) for k in ("PIPE", "CalledProcessError", "run", "STDOUT", "DEVNULL")})
+        ns.Popen = P
+        return ns
+
+    def run_case(self, case, mode="real"):
         import pydra.environments.base as base
+        import pydra.environments.lmod as lmod_mod
         from pydra.engine.job import Job
         from pydra.engine.submitter import Submitter
         from pydra.environments import lmod, native
@@ -160,22 +219,32 @@ class Harness:
         self.calls_log.write_text("")
         calls = []
         real_execute = base.execute
+        real_sp = lmod_mod.sp
 
         def recorder(cmd, strip=False, **kw):
-            calls.append([str(c) for c in cmd])
-            return real_execute(cmd, strip=strip, **kw)
+            env = kw.get("env")
+            calls.append(([str(c) for c in cmd], dict(os.environ) if env is None else dict(env)))
+            if mode == "real":
+                return real_execute(cmd, strip=strip, **kw)
+            return (0, "", "")
 
         task = self.task(case["shape"])
         sub = Submitter(cache_root=self.cache_root, worker="debug")
         saved = dict(os.environ)
         cwd0 = os.getcwd()
-        out = {"case": case, "lmod_output": src_all, "assignments": [list(a) for a in assignments]}
+        out = {"mode": mode, "case": case, "lmod_output": src_all, "assignments": [list(a) for a in assignments]}
         base.execute = recorder
+        if mode == "recorded":
+            lmod_mod.sp = self._popen_standin()
         try:
             os.environ.clear()
             os.environ.update(caller)
             res = {}
-            for label, env in (("native", native.Environment()), ("lmod", lmod.Environment(modules=modnames))):
+            runs = [("lmod", lmod.Environment(modules=modnames))]
+            nkey = (tuple(case["caller"]), case["shape"], mode)
+            if nkey not in self._native:
+                runs.insert(0, ("native", native.Environment()))
+            for label, env in runs:
                 del calls[:]
                 exc = None
                 stdout = None
@@ -184,19 +253,28 @@ class Harness:
                     stdout = r.outputs.stdout
                 except Exception as e:  # noqa
                     exc = f"{type(e).__name__}: {e}"[:300]
-                res[label] = {"argv": list(calls), "raised": exc, "env": _parse_env(stdout) if stdout is not None else None}
+                child = None
+                if exc is None and len(calls) == 1:
+                    child = _parse_env(stdout) if mode == "real" else calls[0][1]
+                res[label] = {"argv": [c[0] for c in calls], "raised": exc, "env": child}
         finally:
             base.execute = real_execute
+            lmod_mod.sp = real_sp
             os.environ.clear()
             os.environ.update(saved)
             os.chdir(cwd0)
         out["lmod_invocations"] = self.calls_log.read_text().splitlines()
         probs = []
-        nat, lm = res["native"], res["lmod"]
-        if nat["raised"] or len(nat["argv"]) != 1 or SE.env_problems(nat["env"], caller, []):
-            raise RuntimeError(f"harness: native reference run is off: {nat}")
+        if "native" in res:
+            nat = res["native"]
+            if nat["raised"] or len(nat["argv"]) != 1 or SE.env_problems(nat["env"], caller, []):
+                raise RuntimeError(f"harness: native reference run is off: {nat}")
+            self._native[nkey] = nat
+        nat, lm = self._native[nkey], res["lmod"]
         if lm["raised"]:
             probs.append(("crash", lm["raised"]))
+        elif lm["env"] is None:
+            probs.append(("launcher-calls", f"{len(lm['argv'])} calls of the process launcher"))
         else:
             if lm["argv"] != nat["argv"]:
                 probs.append(("argv-differs", f"{lm['argv']} vs native {nat['argv']}"))
@@ -234,12 +312,12 @@ def classes(out):
     return by
 
 
-def _drive(ctx, dom, h, cases):
+def _drive(ctx, dom, h, cases, mode):
     for case in cases:
-        out = h.run_case(case)
+        out = h.run_case(case, mode)
         touched = {a[0] for a in out["assignments"]}
         nontrivial = bool(out["assignments"]) and any(k not in touched for k in out["caller_env"])
-        dom.case(repr(case), nontrivial=nontrivial, sample=out)
+        dom.case(repr((mode, case)), nontrivial=nontrivial, sample=out)
         for klass, probs in classes(out).items():
             ctx.fail(klass, f"child environment / argv under lmod.Environment: {probs[:4]} (caller variables {sorted(out['caller_env'])}, module output {out['lmod_output']!r})"[:500], out, domain=dom)
 
@@ -256,6 +334,7 @@ def run(ctx):
         "built here: this check is bounded only."
     )
     ctx.trust(
+        "recorded mode: subprocess runs the child with exactly the mapping passed as env=, or with os.environ when env is None (Python subprocess contract)",
         "the fake lmod script stands for the real `lmod python load` protocol (prints os.environ[...] = ... lines and _mlstatus)",
         "/proc/self/environ and `env -0` report the environment of the executed process exactly",
     )
@@ -264,31 +343,44 @@ def run(ctx):
     os.environ["PYDRA_HASH_CACHE"] = hash_cache
     h = Harness()
     try:
-        d1 = ctx.domain(
-            "single-assignment",
+        d0 = ctx.domain(
+            "real-processes",
             bound=(
-                f"caller environment = MODULESHOME + {'every subset' if ctx.thorough else str(len(QUICK_ENVS)) + ' subsets ' + str(QUICK_ENVS)} of {sorted(CALLER_VARS)} "
+                f"real fake-lmod script and real child process: {len(QUICK_ENVS)} caller environments (MODULESHOME + {QUICK_ENVS}) x "
+                + (f"(FOO, NEWVAR) x value kind {tuple(VALUES)} x spelling {STYLES}" if ctx.thorough else f"FOO x value kind {tuple(VALUES)} in real-Lmod spelling")
+                + f" + NEWVAR x spelling {STYLES} + PATH prepend (task `env -0`); "
+                + ("all two-assignment cases of the largest caller environment" if ctx.thorough else "6 two-assignment cases (override order, double prepend, one/two modules)")
+                + "; the 4 unset cases"
+            ),
+            rule="one real Job.run under lmod per case (fake lmod process + child process), native reference once per caller environment; non-trivial = a module sets a variable and the caller has a variable no module touches",
+            exhaustive=True,
+        )
+        _drive(ctx, d0, h, cases_real(ctx), "real")
+        d1 = ctx.domain(
+            "single-assignment(recorded)",
+            bound=(
+                f"recorded mode: caller environment = MODULESHOME + {'every subset' if ctx.thorough else str(len(QUICK_ENVS)) + ' subsets ' + str(QUICK_ENVS)} of {sorted(CALLER_VARS)} "
                 f"x one module setting one variable: name in {'(FOO, NEWVAR, BAR, PATH)' if ctx.thorough else '(FOO, NEWVAR) + PATH prepend'} (FOO/PATH collide with caller variables) "
                 f"x value kind {tuple(VALUES)} x spelling {STYLES}"
             ),
-            rule="one Job.run under native (reference) and one under lmod per case; non-trivial = a module sets a variable and the caller has a variable no module touches",
+            rule="one Job.run under lmod per case with the lmod executable simulated in-process and the env= argument of the launcher as the child's environment; non-triviality as above",
             exhaustive=True,
         )
-        _drive(ctx, d1, h, cases_single(ctx))
+        _drive(ctx, d1, h, cases_single(ctx), "recorded")
         d2 = ctx.domain(
-            "two-assignments",
-            bound=f"{'5' if ctx.thorough else '2'} caller environments x ordered pairs of (FOO, PATH, NEWVAR) x (simple, spaces, prepend) in real-Lmod spelling, in one module or split over two modules loaded in order; task `env -0`",
-            rule="as single-assignment",
+            "two-assignments(recorded)",
+            bound=f"recorded mode: {'5' if ctx.thorough else '2'} caller environments x ordered pairs of (FOO, PATH, NEWVAR) x (simple, spaces, prepend) in real-Lmod spelling, in one module or split over two modules loaded in order",
+            rule="as single-assignment(recorded)",
             exhaustive=True,
         )
-        _drive(ctx, d2, h, cases_sequences(ctx))
+        _drive(ctx, d2, h, cases_sequences(ctx), "recorded")
         d3 = ctx.domain(
-            "module-unsets-variable",
-            bound="2 caller environments x a module that sets BAR and unsets FOO (present in one caller env) or NEWVAR (absent)",
+            "module-unsets-variable(recorded)",
+            bound="recorded mode: 2 caller environments x a module that sets BAR and unsets FOO (present in one caller env) or NEWVAR (absent)",
             rule="the unset name is left open by the property: only the other names are compared",
             exhaustive=True,
         )
-        _drive(ctx, d3, h, cases_unset(ctx))
+        _drive(ctx, d3, h, cases_unset(ctx), "recorded")
     finally:
         h.close()
         shutil.rmtree(hash_cache, ignore_errors=True)
@@ -302,7 +394,7 @@ def replay(rec):
     case = rec["case"]["case"]
     h = Harness()
     try:
-        out = h.run_case(case)
+        out = h.run_case(case, rec["case"].get("mode", "real"))
     finally:
         h.close()
     print(f"replay {PID}: case={case}")
